@@ -106,6 +106,108 @@ def run_processes(ctx, n, thorough):
     return ndist
 
 
+ENVS = [{'TZ': 'UTC0', 'LANG': 'C'}, {'TZ': 'JST-9', 'LANG': 'en_US.UTF-8', 'HOME': '/nonexistent'}, {'TZ': 'America/Los_Angeles', 'LC_ALL': 'tr_TR.UTF-8', 'COLUMNS': '40'}]
+DATE_RULES = ('let t1 = parse_epoch(ts_plain)\nlet t2 = parse_epoch(ts_z)\nrule plain_ts { %t1 > 1700000000 }\nrule z_ts { %t2 == 1704067200 }\n'
+              'rule upper { to_upper(name) == "İSTANBUL" or to_upper(name) == "ISTANBUL" }\nrule lower { to_lower(name) == "istanbul" }\n')
+DATE_DOC = {"ts_plain": "2024-01-01T00:00:00", "ts_z": "2024-01-01T00:00:00Z", "name": "istanbul"}
+
+
+def run_environment(ctx, n):
+    """the same command under different TZ / locale / HOME / COLUMNS: same exit code and bytes (no now() in the rules)"""
+    rng = random.Random(ctx.seed * 53 + 7)
+    jobs, meta, scen = [], [], []
+    for k in range(n):
+        if k == 0:
+            rules, doc = DATE_RULES, DATE_DOC
+        else:
+            doc, prog = gen.gen_pair(rng, {'cycles': 0.0})
+            rules = gen.render_file(prog)
+        d = os.path.join(ctx.wd, 'e%d' % k)
+        e2e.write_files(d, {'r.guard': rules, 'd.json': json.dumps(doc)})
+        scen.append({'rules': rules, 'doc': doc})
+        for lab, fl in (('s-json', ['--structured', '-o', 'json', '-S', 'none']), ('console', ['-S', 'all'])):
+            for ei, env in enumerate(ENVS):
+                jobs.append({'args': ['validate', '-r', 'r.guard', '-d', 'd.json'] + fl, 'cwd': d, 'env': env})
+                meta.append((k, lab, ei))
+    res = e2e.run_many(jobs)
+    groups = {}
+    for (k, lab, ei), r in zip(meta, res):
+        groups.setdefault((k, lab), []).append(r)
+    for (k, lab), rs in groups.items():
+        info = {'class': 'environment', 'mode': lab, 'rules': scen[k]['rules'], 'doc': scen[k]['doc'], 'environments': ENVS}
+        if any(c == 'timeout' or (isinstance(c, int) and (c < 0 or c == 101)) for c, _, _ in rs):
+            continue
+        if len(set(r[0] for r in rs)) != 1:
+            ctx.failing('%s: exit code depends on the environment: %s' % (lab, [r[0] for r in rs]), info, found=True)
+        elif len(set((json.dumps(console_norm(r[1])) if lab == 'console' else r[1]) for r in rs)) != 1:
+            ctx.failing('%s: output depends on the environment (TZ / locale / HOME / COLUMNS)' % lab, info, found=True)
+    ctx.coverage['environment_groups'] = len(groups)
+    ctx.coverage['evaluations'] += len(jobs)
+    return len(groups)
+
+
+def run_history(ctx, n):
+    """what was evaluated earlier in the process: a data file validated after others gets the report it gets alone"""
+    rng = random.Random(ctx.seed * 53 + 8)
+    jobs, meta, scen = [], [], []
+    flags = ['--structured', '-o', 'json', '-S', 'none']
+    hand = 'rule is_prod when env exists { env == "prod" }\nrule tagged when is_prod { tags !empty }\nrule other {\n  not is_prod or\n  tagged\n}\n'
+    hdocs = [{"env": "prod", "tags": ["a"]}, {"env": "dev"}, {"tags": []}, {"env": "prod", "tags": []}]
+    for k in range(n):
+        if k < 2:
+            rules, docs = hand, (hdocs if k == 0 else list(reversed(hdocs)))
+        else:
+            doc, prog = gen.gen_pair(rng, {'cycles': 0.0, 'types': False, 'functions': False})
+            rules, docs = gen.render_file(prog), [doc, gen.gen_doc(rng), doc]
+        d = os.path.join(ctx.wd, 'h%d' % k)
+        files = {'r.guard': rules}
+        for i, x in enumerate(docs):
+            files['d%d.json' % i] = json.dumps(x)
+        e2e.write_files(d, files)
+        scen.append({'rules': rules, 'docs': docs})
+        for mode, fl in (('structured', flags), ('plain-json', ['-o', 'json', '-S', 'none'])):
+            args = ['validate', '-r', 'r.guard'] + fl
+            for i in range(len(docs)):
+                args += ['-d', 'd%d.json' % i]
+            jobs.append({'args': args, 'cwd': d})
+            meta.append((k, mode, 'all'))
+            for i in range(len(docs)):
+                jobs.append({'args': ['validate', '-r', 'r.guard', '-d', 'd%d.json' % i] + fl, 'cwd': d})
+                meta.append((k, mode, i))
+    res = e2e.run_many(jobs)
+    by = {}
+    for (k, mode, i), r in zip(meta, res):
+        by.setdefault((k, mode), {})[i] = r
+    n_ok = 0
+    for (k, mode), runs in by.items():
+        info = {'class': 'history', 'mode': mode, 'rules': scen[k]['rules'], 'docs': scen[k]['docs']}
+        if any(r[0] not in (0, 19) for r in runs.values()):
+            continue
+        def reports(b):
+            dec, i, out, t = json.JSONDecoder(), 0, [], b.decode('utf-8', 'replace')
+            while i < len(t):
+                while i < len(t) and t[i] not in '{[':
+                    i += 1
+                if i >= len(t):
+                    break
+                try:
+                    o, j = dec.raw_decode(t, i)
+                except ValueError:
+                    i += 1
+                    continue
+                out += o if isinstance(o, list) else [o]
+                i = j
+            return [x for x in out if isinstance(x, dict) and 'not_compliant' in x]
+        alls = reports(runs['all'][1])
+        singles = [r for i in range(len(scen[k]['docs'])) for r in reports(runs[i][1])]
+        n_ok += 1
+        if json.dumps(alls, sort_keys=True) != json.dumps(singles, sort_keys=True):
+            ctx.failing('%s: a data file validated after others does not get the report it gets alone' % mode, info, found=True)
+    ctx.coverage['history_groups'] = n_ok
+    ctx.coverage['evaluations'] += len(jobs)
+    return n_ok
+
+
 def run_in_process(ctx, n):
     """the same run_checks call REPEAT times in one process, interleaved with other evaluations"""
     rng = random.Random(ctx.seed * 53 + 6)
@@ -149,7 +251,9 @@ def run(ctx):
         inv_problems += ['%s: %s' % (kind, p) for p in problems]
     n1 = run_processes(ctx, 60 if thorough else 14, thorough)
     n2 = run_in_process(ctx, 60 if thorough else 25)
-    ctx.coverage['distinct_nontrivial'] = n1 + n2
+    n3 = run_environment(ctx, 40 if thorough else 10)
+    n4 = run_history(ctx, 40 if thorough else 10)
+    ctx.coverage['distinct_nontrivial'] = n1 + n2 + n3 + n4
     ctx.coverage['rule'] = ('group = (generated rules + document, command and output mode); each group is run in %d fresh processes and compared (bytes for '
                             'JSON/YAML/SARIF/print-json/parse-tree/rulegen, JUnit with time attributes masked, sorted lines for console output, stderr likewise); '
                             'run_checks: every (rules, data, verbose) %d times in one process in shuffled order; distinct = groups' % (REPEAT, REPEAT))
